@@ -420,7 +420,10 @@ def correspond(rep, name, variant, texts, P, with_matches=False, shard=1500, wha
     else:
         items = [coq_pcase(s, o) for s, o in zip(uniq, outs)]
         ok, ty = "pcase_ok %s" % coq_cfg(variant), "pcase"
+    import time
+    t0 = time.time()
     bad = coq_bad(rep.prop, name, SGML_IMPORTS, ok, ty, items, shard)
+    rep.extra.setdefault("phase_s", {})["coq:" + name] = round(time.time() - t0, 1)
     for i in bad[:40]:
         rep.disagreements.append({"run": name, "text": uniq[i], "implementation": outs[i],
                                   "matches": impl_matches(P, uniq[i]) if with_matches else None})
@@ -441,7 +444,7 @@ def deep_strings(rng, tier, deep):
     for l in range(1, n_tok + 1):
         for t in itertools.product(toks, repeat=l):
             out.append("".join(t))
-    extra = 400000 if tier == "thorough" else (60000 if deep else 12000)
+    extra = 400000 if tier == "thorough" else (60000 if deep else 5000)
     for _ in range(extra):
         l = rng.randint(n_tok + 1, 9)
         out.append("".join(rng.choice(toks) for _ in range(l)))
@@ -493,6 +496,8 @@ def run(rep, tier, rng):
     thorough = tier == "thorough"
     deep = thorough or not variant["known"]
     rep.extra["source_variant"] = {k: variant[k] for k in ("cdata_lazy", "checked", "known")}
+    import time
+    rep.extra.setdefault("phase_s", {})["translate+build(incl. lock wait)"] = round(time.time() - rep.t0, 1)
     fails = rep.failures
     texts = []            # everything that goes to the model as well
 
@@ -609,10 +614,10 @@ def run(rep, tier, rng):
     rep.sample({"text": texts[len(texts) // 2], "implementation": impl_parse(P, texts[len(texts) // 2])})
     rep.sample({"text": dstr[len(dstr) // 2], "implementation": impl_parse(P, dstr[len(dstr) // 2]), "matches": impl_matches(P, dstr[len(dstr) // 2])})
 
-    correspond(rep, "renderings", variant, texts, P, shard=1500)
+    correspond(rep, "renderings", variant, texts, P, shard=1500 if thorough else 280)
     if big_texts:
         correspond(rep, "large", variant, big_texts, P, shard=2)
-    correspond(rep, "deep", variant, dstr, P, with_matches=True, shard=2500)
+    correspond(rep, "deep", variant, dstr, P, with_matches=True, shard=2500 if deep else 850)
 
     # ---------------- Serialize engine: byte-exact correspondence on random trees ----------------
     run_serialize(rep, tier, rng)
@@ -712,7 +717,7 @@ def run_serialize(rep, tier, rng):
     rep.sample({"serialize_mode": kept[7][0], "tree": kept[7][1], "implementation": repr(kept[7][2])})
     he = C.clist([C.ctext(x) for x in sorted(ET.HTML_EMPTY)])
     bad = coq_bad(rep.prop, "serialize", ["Base.SgmlBase", "Model.Serialize", "Model.SerializeCases"],
-                  "sercase_ok %s %s" % (he, C.cbool(esc)), "sercase", items, 300)
+                  "sercase_ok %s %s" % (he, C.cbool(esc)), "sercase", items, 300 if tier == "thorough" else 120)
     for i in bad[:20]:
         rep.disagreements.append({"run": "serialize", "mode": kept[i][0], "tree": kept[i][1], "implementation": repr(kept[i][2])})
 
